@@ -13,7 +13,7 @@ namespace Holpy
 (which includes: the logical constants occur at instances of their declared types only) and it is
 valid in every finite standard model -/
 structure Good (th : Thm) : Prop where
-  wt : Thm.checkThmType th = true
+  wt : Thm.checkThmTypeSig th = true
   valid : ∀ M : Model, Valid M th
 
 /-! ### bookkeeping of hypothesis lists -/
@@ -60,10 +60,9 @@ theorem Thm.sigOK_iff (th : Thm) : Thm.sigOK th = true ↔
   unfold Thm.sigOK
   rw [Bool.and_eq_true, List.all_eq_true]
 
-/-- what `check_thm_type` checks -/
 theorem Thm.checkThmType_iff (th : Thm) : Thm.checkThmType th = true ↔
-    ((∀ h ∈ th.hyps, Term.checkedGetType [] h = .ok Ty.bool) ∧
-      Term.checkedGetType [] th.prop = .ok Ty.bool) ∧ Thm.sigOK th = true := by
+    (∀ h ∈ th.hyps, Term.checkedGetType [] h = .ok Ty.bool) ∧
+      Term.checkedGetType [] th.prop = .ok Ty.bool := by
   have key : ∀ t : Term, (match Term.checkedGetType [] t with
       | .ok T => T == Ty.bool
       | .error _ => false) = true ↔ Term.checkedGetType [] t = .ok Ty.bool := by
@@ -72,31 +71,31 @@ theorem Thm.checkThmType_iff (th : Thm) : Thm.checkThmType th = true ↔
     | ok T => simp
     | error e => simp
   unfold Thm.checkThmType
-  rw [List.all_eq_true, Thm.sigOK_iff]
+  rw [List.all_eq_true]
   constructor
   · intro H
-    have H' : ∀ t ∈ th.hyps ++ [th.prop], Term.checkedGetType [] t = .ok Ty.bool ∧ Holpy.sigOK t = true := by
-      intro t ht
-      have := H t ht
-      rw [Bool.and_eq_true] at this
-      exact ⟨(key t).1 this.1, this.2⟩
-    have hp := H' th.prop (List.mem_append_right _ (List.mem_singleton.2 rfl))
-    exact ⟨⟨fun h hm => (H' h (List.mem_append_left _ hm)).1, hp.1⟩,
-      fun h hm => (H' h (List.mem_append_left _ hm)).2, hp.2⟩
-  · rintro ⟨⟨H1, H2⟩, H3, H4⟩ t ht
-    rw [Bool.and_eq_true]
+    exact ⟨fun h hm => (key h).1 (H h (List.mem_append_left _ hm)),
+      (key _).1 (H _ (List.mem_append_right _ (List.mem_singleton.2 rfl)))⟩
+  · rintro ⟨H1, H2⟩ t ht
     rcases List.mem_append.1 ht with ht | ht
-    · exact ⟨(key t).2 (H1 t ht), H3 t ht⟩
-    · rw [List.mem_singleton.1 ht]; exact ⟨(key _).2 H2, H4⟩
+    · exact (key t).2 (H1 t ht)
+    · rw [List.mem_singleton.1 ht]; exact (key _).2 H2
+
+/-- what `check_thm_type` checks -/
+theorem Thm.checkThmTypeSig_iff (th : Thm) : Thm.checkThmTypeSig th = true ↔
+    ((∀ h ∈ th.hyps, Term.checkedGetType [] h = .ok Ty.bool) ∧
+      Term.checkedGetType [] th.prop = .ok Ty.bool) ∧ Thm.sigOK th = true := by
+  unfold Thm.checkThmTypeSig
+  rw [Bool.and_eq_true, Thm.checkThmType_iff]
 
 /-- a sequent that passes `check_thm_type` is well-typed … -/
-theorem Thm.checkThmType_typed (th : Thm) (h : Thm.checkThmType th = true) :
+theorem Thm.checkThmType_typed (th : Thm) (h : Thm.checkThmTypeSig th = true) :
     (∀ h ∈ th.hyps, Term.checkedGetType [] h = .ok Ty.bool) ∧
-      Term.checkedGetType [] th.prop = .ok Ty.bool := ((Thm.checkThmType_iff th).1 h).1
+      Term.checkedGetType [] th.prop = .ok Ty.bool := ((Thm.checkThmTypeSig_iff th).1 h).1
 
 /-- … and uses the logical constants at instances of their declared types only -/
-theorem Thm.checkThmType_sig (th : Thm) (h : Thm.checkThmType th = true) :
-    Thm.sigOK th = true := ((Thm.checkThmType_iff th).1 h).2
+theorem Thm.checkThmType_sig (th : Thm) (h : Thm.checkThmTypeSig th = true) :
+    Thm.sigOK th = true := ((Thm.checkThmTypeSig_iff th).1 h).2
 
 theorem Thm.mk'_one (p : Term) (hs : List Term) : Thm.mk' p [hs] = ⟨hs, p⟩ := by
   simp [Thm.mk', Thm.addTuple]
